@@ -221,6 +221,13 @@ func dump(st *mocktikv.MVCCLevelDB) string {
 	return sb.String()
 }
 
+// lockInfo: one ScanLock entry. key, primary, start ts, lock type, ttl, for-update ts are compared with the model;
+// TxnSize (not in the model's lock record) is checked against the stored lock by the caller; MinCommitTs is
+// deliberately not filled by the mock's ScanLock and not compared.
+func lockInfo(l *kvrpcpb.LockInfo) string {
+	return kid(l.Key) + "," + kid(l.PrimaryLock) + "," + hx(l.LockVersion) + "," + opc(l.LockType) + "," + hx(l.LockTtl) + "," + hx(l.LockForUpdateTs)
+}
+
 func buildPrewrite(f []string) *kvrpcpb.PrewriteRequest {
 	req := &kvrpcpb.PrewriteRequest{PrimaryLock: kb(pu(f[1])), StartVersion: pu(f[2]), ForUpdateTs: pu(f[3]), LockTtl: pu(f[4]),
 		MinCommitTs: pu(f[5]), Context: &kvrpcpb.Context{}, TxnSize: 1}
@@ -423,7 +430,10 @@ func exec(st *mocktikv.MVCCLevelDB, c string) (res string) {
 		}
 		p := make([]string, len(ls))
 		for i, l := range ls {
-			p[i] = kid(l.Key) + "," + kid(l.PrimaryLock) + "," + hx(l.LockVersion)
+			p[i] = lockInfo(l)
+			if stored, _, err := st.ZZDumpKey(l.Key); err != nil || stored == nil || stored.TxnSize != l.TxnSize {
+				p[i] += "!txnsize"
+			}
 		}
 		return "K[" + strings.Join(p, ";") + "]"
 	case "gc":
